@@ -7,7 +7,7 @@ CONSTANTS
   H = 8
   HIGH = 4
   LOW = 2
-  NK = 5
+  NK = 4
   Classes <- Cls60
   NV = 2
   MaxFreeze = 2
